@@ -1596,7 +1596,7 @@ func (c *FnCtx) execReturn(st *State, in *ssa.Return) {
 		if name == "" {
 			name = fmt.Sprint(n)
 		}
-		if cl.At != "" && cl.At != c.eng.srcLine(in.Pos()) {
+		if cl.At != "" && cl.At != "*" && cl.At != c.eng.srcLine(in.Pos()) {
 			continue
 		}
 		if cl.At != "" && cl.AtOrd > 0 && c.occurrence(in.Pos()) != fmt.Sprintf(" #%d", cl.AtOrd) {
